@@ -382,7 +382,7 @@ class pcovar(ParametricSpectrum):
             self.psd = newpsd
         else:
             self.psd = psd
-        if self.scale_by_freq is True:
+        if self.scale_by_freq:
             self.scale()
         return self
 
